@@ -48,8 +48,14 @@ def build(race=False, tags="verif"):
     return out
 
 
-def driver(binary, args, cwd, timeout=3600, env=None):
+DRIVER_TIMEOUT = int(os.environ.get("VERIF_DRIVER_TIMEOUT", "3600"))
+TIMED_OUT = []      # drivers killed after DRIVER_TIMEOUT seconds (their partial traces are still validated)
+RC_TIMEOUT = -999
+
+
+def driver(binary, args, cwd, timeout=None, env=None):
     """Run the Go driver as a child process. Returns (returncode, stdout, stderr)."""
+    timeout = timeout or DRIVER_TIMEOUT
     e = goenv()
     if env:
         e.update(env)
@@ -58,7 +64,7 @@ def driver(binary, args, cwd, timeout=3600, env=None):
     try:
         p = subprocess.run([binary] + [str(a) for a in args], cwd=cwd, env=e, capture_output=True, text=True, errors="replace", timeout=timeout)
     except subprocess.TimeoutExpired:
-        raise Infra("driver timed out: %s" % " ".join(map(str, args)))
+        return RC_TIMEOUT, "", "driver timed out after %ds: %s" % (timeout, " ".join(map(str, args)))
     return p.returncode, p.stdout, p.stderr
 
 
@@ -387,6 +393,24 @@ def run_drivers(binary, jobs, work, race=False):
     crashes = []
     with ThreadPoolExecutor(max_workers=NCPU) as ex:
         for name, path, rc, out, err in ex.map(one, jobs):
+            if rc == RC_TIMEOUT and os.path.exists(path):
+                # the driver did not finish (an execution that never ends, or an overloaded machine): what it recorded up to
+                # then is validated like any other trace - a violation found in it stands - and the timeout itself is reported as
+                # infrastructure trouble afterwards (never as a violation)
+                lines = open(path, errors="replace").read().split("\n")
+                good = []
+                for ln in lines:
+                    try:
+                        json.loads(ln)
+                    except ValueError:
+                        break
+                    good.append(ln)
+                open(path, "w").write("".join(g + "\n" for g in good))
+                TIMED_OUT.append((name, err))
+                if good:
+                    outs[name] = path
+                    continue
+                raise Infra(err)
             if rc != 0:
                 if app_crashed(err):
                     crashes.append((name, path, err))
@@ -435,6 +459,9 @@ def run_stateful_check(prop, tier, seed, work, *, mc_list, groups, key_fn, level
     """mc_list: [(spec, cfg)] exhaustive/simulation configs of the specification alone.
        groups: [(trace_spec, trace_cfg, [(name, driver args)])]: traces of one group are validated with one cfg."""
     t0 = time.time()
+    global DRIVER_TIMEOUT
+    if tier == "quick" and "VERIF_DRIVER_TIMEOUT" not in os.environ:
+        DRIVER_TIMEOUT = 1200      # a quick driver job takes well under two minutes on an idle machine
     binary = build(race=race)
     states = transitions = 0
     mc_info = []
@@ -481,6 +508,10 @@ def run_stateful_check(prop, tier, seed, work, *, mc_list, groups, key_fn, level
         known_rep += ev["coverage"].get("known_findings_reported", [])
         nviol += ev.get("violations", 0)
         rc_all = max(rc_all, rc)
+    if TIMED_OUT and rc_all == EXIT_OK:
+        raise Infra("%d driver(s) did not finish in %ds (their partial traces were accepted): %s" % (len(TIMED_OUT), DRIVER_TIMEOUT, TIMED_OUT[0][1][:300]))
+    if TIMED_OUT:
+        infra_notes.append("%d driver(s) did not finish in %ds" % (len(TIMED_OUT), DRIVER_TIMEOUT))
     # merged evidence
     kinds = {}
     total_lines = 0
